@@ -287,6 +287,8 @@ pub struct PortState {
     pub write_stall: Option<Duration>,
     /// the first read call blocks this long before it delivers (the sign takes its time to answer)
     pub first_read_stall: Option<Duration>,
+    /// a port whose driver takes its time to apply settings (`write_settings` blocks this long)
+    pub settings_stall: Option<Duration>,
     pub read_calls: usize,
 }
 
@@ -331,6 +333,7 @@ pub fn shared(settings: PortSettings) -> Shared {
         flush_calls: 0,
         write_stall: None,
         first_read_stall: None,
+        settings_stall: None,
         read_calls: 0,
     }))
 }
@@ -526,6 +529,10 @@ impl SerialDevice for InstrPort {
 
     fn write_settings(&mut self, settings: &InstrSettings) -> serial_core::Result<()> {
         let t0 = Instant::now();
+        let stall = self.st.borrow().settings_stall;
+        if let Some(d) = stall {
+            std::thread::sleep(d);
+        }
         let fail = self.st.borrow_mut().take(2);
         self.st.borrow_mut().push(PortEv::WriteSettings { settings: settings.cur, ok: fail.is_none() }, t0);
         match fail {
